@@ -128,6 +128,7 @@ def main(argv):
         kfut = None
         if k_groups:
             kfut = ex.submit(kanirun.run_groups, prop, k_groups, tier, REPO)
+        bfut = ex.submit(kanirun.run_bounded, REPO, prop) if P.get("bounded") else None
         for f in cf.as_completed(futs):
             kind, u = futs[f]
             try:
@@ -141,6 +142,12 @@ def main(argv):
             except Exception as e:
                 kres = [dict(group="?", harness="?", status="undecided", reason="driver exception: %s\n%s" % (e, traceback.format_exc()))]
 
+    bres = None
+    if bfut is not None:
+        try:
+            bres = bfut.result()
+        except Exception as e:
+            bres = dict(status="undecided", reason="driver exception: %s" % e, harness="bounded:" + prop)
     known = load_known()
     violations = []
     known_hits = []
@@ -239,6 +246,23 @@ def main(argv):
                 samples.append(dict(engine="kani", harness=r["harness"], obligation=r.get("what", ""), checks=r.get("checks"),
                                     cover=r.get("cover"), discharged=True))
 
+    # engine B: bounded native checks (stated bound; never counted as discharged obligations)
+    if bres is not None:
+        if bres["status"] == "undecided":
+            undecided.append("bounded native check: %s" % bres.get("reason"))
+        else:
+            checker_cmds.append(bres.get("cmd", ""))
+            bounded.append(dict(harness=bres["harness"], bound=bres.get("bound"), status=bres["status"], cases=bres.get("cases"),
+                                clause_evaluations=bres.get("checks"), wall_s=bres.get("wall_s"),
+                                note="executable contract clauses evaluated natively on the real code over an enumerated input space; NOT a proof"))
+            for fl in bres.get("failures", []):
+                what = fl.split(" | input: ")[0]
+                oid = "%s/bounded/%s" % (prop, what[:200])
+                k = match_known(known, prop, oid)
+                if k:
+                    known_hits.append((k, oid))
+                else:
+                    violations.append(("bounded", oid, dict(harness=bres["harness"], failing=fl, bound=bres.get("bound")), None))
     wall = round(time.time() - t0, 2)
     rc = 0
     printed = set()
@@ -256,7 +280,11 @@ def main(argv):
         rpath = os.path.join(VERIF, "replays", "%s-%s.json" % (prop, h))
         rec = dict(property=prop, obligation=oid, unit=u, tier=tier)
         suffix = " no-failing-input-found"
-        if u.startswith("kani:"):
+        if u == "bounded":
+            rec.update(engine="bounded native check on the real crate (--cfg engeom_verif)", failing_clause_and_input=e["failing"], bound=e["bound"],
+                       replay="%s bounded %s" % (os.path.join(VERIF, ".cache", "replay-target", "debug", "vreplay"), prop))
+            suffix = ""
+        elif u.startswith("kani:"):
             rec.update(engine="kani", harness=e["harness"], failed_check=e.get("failed_check"), counterexample=e.get("counterexample"),
                        native_replay=e.get("native_replay"), verifier_output=e.get("output_tail"))
             if e.get("counterexample") and (e.get("native_replay") or {}).get("reproduced"):
